@@ -4,6 +4,7 @@ import ast
 
 from ..core import AnalysisError, unparse, where
 from ..cfg import forward, forward_worlds, find_path, path_str
+from ..normal import normalise
 from ..seq import (gen_cfg, yields_of, cond_edge_transfer,
                    kill_conds_on_assign, assigned_names, _is_attr_chain)
 from ..cfg import _walk_no_nested
@@ -316,6 +317,7 @@ def check(run, repo, world):
 
     # ---- R-COMM-CLASH -----------------------------------------------------
     _check_find_next(run, repo, world, cfg, ys, ynode)
+    _check_advance(run, mod, C, fn)
 
     # ---- R-COMM-RERAND ----------------------------------------------------
     run.rule("R-COMM-RERAND", "no path from Withdraw (after a real "
@@ -620,7 +622,22 @@ def _check_discovery(cfg, world, qp, pool, ynode, inits, INc):
         alt = isinstance(it, ast.Call) and isinstance(it.func, ast.Name) \
             and it.func.id in ("list", "sorted", "tuple") and \
             len(it.args) == 1 and unparse(it.args[0]) == pool
-        if not (full or alt):
+        it2 = it
+        if isinstance(it, ast.Name):
+            ds = _defs_of(cfg, it.id)
+            if len(ds) == 1:
+                it2 = ds[0]
+        alt2 = False
+        if isinstance(it2, ast.ListComp) and len(it2.generators) == 1:
+            g = it2.generators[0]
+            src = g.iter
+            src_ok = (isinstance(src, ast.Call) and unparse(src.func) ==
+                      "range" and [unparse(x) for x in src.args] in (
+                          ["64"], ["0", "64"])) or unparse(src) == pool
+            ifs_ok = all(unparse(c_) == "%s in %s" % (unparse(g.target),
+                                                       pool) for c_ in g.ifs)
+            alt2 = src_ok and ifs_ok and unparse(it2.elt) == unparse(g.target)
+        if not (full or alt or alt2):
             why.append("discovery loop iterates %s, not every candidate"
                        % unparse(it))
         if y.target is None:
@@ -676,6 +693,7 @@ def _check_find_next(run, repo, world, ccfg, cys, cynode):
              "before Compare; leaf returns the clash marker iff the Compare "
              "answer has a framing error; caller restarts on the marker")
     m, fn, _ = world.func(MOD + "._find_next")
+    fn = normalise(fn, world, MOD, primitives=("_find_next",), aliases="params")
     cfg = gen_cfg(fn, MOD + "._find_next")
     ys = yields_of(cfg, world, MOD)
     F = MOD + "._find_next"
@@ -873,3 +891,82 @@ def _enumerate_returns(cfg, start, r):
         if l != "exc":
             walk(m, {}, set())
     return out
+
+
+def _check_advance(run, mod, C, fn):
+    """After a unit has been found at random address `low` and withdrawn,
+    the search continues at low + 1 while low < high and stops only when
+    low == high (nothing can be above the top of the range): decided on the
+    path summaries of the statements that follow `yield Withdraw()`."""
+    from .. import pred, paths
+    run.rule("R-COMM-ADVANCE", "after Withdraw the search resumes at found+1 "
+             "exactly while found < high; it ends only at the top of the "
+             "address space")
+    tail = None
+    for n in ast.walk(fn):
+        body = getattr(n, "body", None)
+        if not isinstance(body, list):
+            continue
+        for fld in ("body", "orelse"):
+            blk = getattr(n, fld, None)
+            if not isinstance(blk, list):
+                continue
+            for i, s_ in enumerate(blk):
+                if isinstance(s_, ast.Expr) and isinstance(
+                        s_.value, ast.Yield) and isinstance(
+                            s_.value.value, ast.Call) and unparse(
+                                s_.value.value.func) == "Withdraw":
+                    tail = blk[i + 1:]
+    if tail is None:
+        raise AnalysisError("Commissioning: `yield Withdraw()` not found as "
+                            "a statement")
+    f2 = ast.FunctionDef(name="advance", args=fn.args, body=list(tail) or [
+        ast.Pass()], decorator_list=[], returns=None, type_comment=None,
+        type_params=[])
+    ast.fix_missing_locations(f2)
+    try:
+        ps = paths.summaries(f2)
+    except paths.Unsupported as e:
+        raise AnalysisError("Commissioning: the statements after Withdraw "
+                            "are not loop-free (%s)" % e)
+    P = pred.Parser(pred.lin_of({"low": "low", "high": "high"}))
+    lin = pred.lin_of({"low": "low", "high": "high"})
+    from ..lanes import Lin
+    cont, stop, other = [], [], []
+    for p_ in ps:
+        trees = []
+        for (t, b) in p_.conds:
+            tr = P.tree(t)
+            trees.append(tr if b else ("not", tr))
+        d = pred.dnf(("and", trees))
+        new = p_.env.get("low")
+        if new is None:
+            other.append((p_, "low unchanged"))
+        elif isinstance(new, ast.Constant) and new.value is None:
+            fin = p_.env.get("finished")
+            if not (isinstance(fin, ast.Constant) and fin.value is True):
+                other.append((p_, "stops without finished = True"))
+            stop.append(d)
+        elif lin(new) == Lin.sym("low") + 1:
+            cont.append(d)
+        else:
+            other.append((p_, "low becomes %s" % unparse(new)))
+    hyp = [("le", "low", "high", 0)]
+
+    def f(src):
+        return P.dnf(ast.parse(src, mode="eval").body)
+    c_ok, cw = pred.equivalent(pred.union(*cont) if cont else frozenset(),
+                               f("low < high"), hyp)
+    s_ok, sw = pred.equivalent(pred.union(*stop) if stop else frozenset(),
+                               f("low >= high"), hyp)
+    run.ob("R-COMM-ADVANCE", C + "#resume-at-found+1", c_ok and s_ok and
+           not other,
+           "the search continues at low+1 when `%s` (required: low < high) "
+           "and stops when `%s` (required: low == high)%s: a unit whose "
+           "random address lies above the point where the search stops is "
+           "never found" % (
+               pred.show(pred.union(*cont)) if cont else "never",
+               pred.show(pred.union(*stop)) if stop else "never",
+               "; " + "; ".join(w for (_, w) in other) if other else ""),
+           where(mod, fn),
+           sample={"rule": "R-COMM-ADVANCE", "paths": [repr(p_) for p_ in ps]})
